@@ -22,6 +22,9 @@ namespace LIB = etl;
 #define CAP 16
 #endif
 #define WMAX (CAP / 8)
+#ifndef WMIN
+#define WMIN 1
+#endif
 
 // ---- type-level part of C20 (value categories / result types): compile-time only, not solver evidence
 namespace typelevel {
@@ -133,9 +136,13 @@ K void k_ipf_from_lambda(void* o, int s) { ::new (o) F([s](int x) { return vf_lo
     K void k_ipf_from_nt##W(void* o, int s) { ::new (o) F(Nt<W>(s)); }                                                 \
     K void k_ipf_from_nt##W##_l(void* o, int s) { Nt<W> t(s); ::new (o) F(t); }                                        \
     K void k_ipf_assign_nt##W(void* o, int s) { R(o) = Nt<W>(s); }
+#if WMIN <= 1
 TGT(1)
+#endif
+#if WMIN <= 2 && WMAX >= 2
 TGT(2)
-#if WMAX >= 3
+#endif
+#if WMIN <= 3 && WMAX >= 3
 TGT(3)
 #endif
 #if WMAX >= 4
